@@ -1,12 +1,8 @@
-import EchoModel
+import Driver.Dispatch
 /-!
 Line-protocol driver: `echomodel <property>` reads one case per line on stdin and prints
 the model's observation for it, one line per case.
 -/
-
-def dispatch : String → Option (String → String)
-  | "C14" => some C14.runLine
-  | _ => none
 
 partial def loop (h : IO.FS.Stream) (out : IO.FS.Stream) (f : String → String) : IO Unit := do
   let line ← h.getLine
